@@ -16,42 +16,87 @@ EXTENDS ContextModel, Json, IOUtils
 \* five built-in targets, the nested limit error and the re-entrant eval
 CoreKinds == {"defvar", "deffun", "assign", "delete", "mut_objproto", "mut_arrproto",
               "throw", "loop", "recurse", "syntax", "ieval", "newfn", "set"}
+\* family R (re-declaration of names that may exist): "redecl" is the base catalogue plus every re-declaration form;
+\* "redecl1" is the sub-alphabet of everything that defines, re-declares or reads g and f, for longer histories on
+\* one context
+Redecl1Kinds == {"defvar", "deffun", "assign", "set", "throw", "ieval", "read", "newfn"} \cup RedeclKinds
+\* family I (isolation of the whole built-in object graph): the history works on one inventory target
+InvCoreKinds == {"inv_mut", "inv_del", "inv_throw"}
 AlphabetName == IF "ALPHABET" \in DOMAIN IOEnv THEN IOEnv.ALPHABET ELSE "full"
-Alphabet == IF AlphabetName = "core" THEN CoreKinds ELSE Kinds
+Alphabet == CASE AlphabetName = "core" -> CoreKinds
+              [] AlphabetName = "redecl" -> BaseKinds \cup RedeclKinds
+              [] AlphabetName = "redecl1" -> Redecl1Kinds
+              [] AlphabetName = "inv" -> InvCoreKinds
+              [] AlphabetName = "invfull" -> InvKinds
+              [] OTHER -> BaseKinds
+
+\* ---------------- the inventory of the built-in object graph (family I) ---------------------------
+\* The driver reports, for a fresh context, every global name and, for each access path <root> x <via>, whether
+\* the path designates an object that keeps a property written to it (ok = 1; one scratch context per path).
+\* Roots are the names found in the context at run time (lit = 0) and a few literal forms (lit = 1, via gpo only).
+\*   self  <root>                           proto <root>.prototype
+\*   gpo   Object.getPrototypeOf(<root>)    inst  Object.getPrototypeOf(new <root>())
+\*   mem   an existing member <root>.<mem> is overwritten / deleted (ord = its position among the root's keys)
+\*   pmem  the same for <root>.prototype.<mem>
+\* The marker of every other via is a new property `zq`.  The specification decides which paths are targets.
+Vias == {"self", "proto", "gpo", "inst", "mem", "pmem"}
+Inventory == IF "INV_FILE" \in DOMAIN IOEnv THEN ndJsonDeserialize(IOEnv.INV_FILE) ELSE <<>>
+InvSub == IF "INV_SUB" \in DOMAIN IOEnv THEN IOEnv.INV_SUB ELSE "all"
+IsMember(rec) == rec.via \in {"mem", "pmem"}
+InvTargets == {j \in 1..Len(Inventory) :
+                 /\ Inventory[j].ok = 1 /\ Inventory[j].via \in Vias
+                 /\ (InvSub = "all" \/ ~IsMember(Inventory[j]) \/ Inventory[j].ord = 1)}   \* quick: first member of every root
+\* vacuity guard (machinery, not a verdict on the engine): the discovery found the object graph
+MustRoots == {"Object", "Array", "Math", "JSON", "Function", "Error", "String", "Number"}
+InvWellFormed ==
+  /\ \A j \in 1..Len(Inventory) : Inventory[j].via \in Vias /\ Inventory[j].ok \in {0, 1} /\ Inventory[j].lit \in {0, 1}
+  /\ \A r \in MustRoots : \E j \in InvTargets : Inventory[j].root = r /\ Inventory[j].via = "self" /\ Inventory[j].lit = 0
+  /\ \A v \in Vias : \E j \in InvTargets : Inventory[j].via = v
+  /\ \E j \in InvTargets : Inventory[j].lit = 1
+  /\ Cardinality(InvTargets) >= 30
+IsInvAlphabet == AlphabetName \in {"inv", "invfull"}
+\* the parameters of a history besides its events: the inventory target it works on (0 = none) and whether the
+\* contexts other than the first actor's are created only after the first event has run
+FamSpace == IF IsInvAlphabet THEN {[tj |-> j, late |-> b] : j \in InvTargets, b \in {0, 1}}
+            ELSE {[tj |-> 0, late |-> 0]}
 
 VARIABLES hist,     \* Enum: the history so far, a sequence of [c, k]
+          fam,      \* Enum: the parameters of the history [tj, late]
           tid,      \* Trace: index of the trace being validated
           tl,       \* Trace: next event
           tok,      \* Trace: no mismatch so far
           twhy,     \* Trace: first mismatch [at, clause, c, exp]
           tdevs     \* Trace: named deviations (known findings) that explained an observation
-vars == <<cmvars, hist, tid, tl, tok, twhy, tdevs>>
+vars == <<cmvars, hist, fam, tid, tl, tok, twhy, tdevs>>
 NoWhy == [at |-> 0, clause |-> "", c |-> 0, exp |-> <<>>]
 \* the limits of the contexts are part of the specification: the driver reads them from this line
 ASSUME PrintT(ToJson([limits |-> [c \in 1..3 |-> LimitsOf(c)]]))
+ASSUME IsInvAlphabet => PrintT(ToJson([inv_ok |-> InvWellFormed, inv_n |-> Cardinality(InvTargets),
+                                       inv_len |-> Len(Inventory)]))
 
 \* ---------------- Enum --------------------------------------------------------------------------
 \* the value written by event number n is n: every write of a history is distinguishable
 EnumInit == /\ ctx = [c \in Ctxs |-> NewCtx(LimitsOf(c))] /\ twin = <<>> /\ pc = Idle
             /\ evn = 0 /\ actor = 0 /\ last = "none"
-            /\ hist = <<>> /\ tid = 0 /\ tl = 0 /\ tok = TRUE /\ twhy = NoWhy /\ tdevs = {}
+            /\ hist = <<>> /\ fam \in FamSpace /\ tid = 0 /\ tl = 0 /\ tok = TRUE /\ twhy = NoWhy /\ tdevs = {}
 EnumExtend == /\ evn < MAXN
               /\ \E c \in Ctxs : \E kd \in Alphabet :
                    /\ Guard(kd, ctx[c])
                    /\ ctx' = [ctx EXCEPT ![c] = RunEvent(ctx[c], kd, evn + 1).st]
                    /\ evn' = evn + 1 /\ actor' = c
                    /\ hist' = Append(hist, [c |-> c, k |-> kd])
-                   /\ UNCHANGED <<twin, pc, last, tid, tl, tok, twhy, tdevs>>
+                   /\ UNCHANGED <<twin, pc, last, fam, tid, tl, tok, twhy, tdevs>>
 \* a complete history is printed exactly once and not extended.  (No CONSTRAINT is used for this: TLC's
 \* simulator retries for ever when every successor of a state violates a constraint.)
 EnumFinish == /\ evn = MAXN /\ tl = 0
-              /\ PrintT(ToJson([h |-> hist]))
+              /\ PrintT(ToJson([h |-> hist, tj |-> fam.tj, late |-> fam.late]))
               /\ tl' = 1
-              /\ UNCHANGED <<cmvars, hist, tid, tok, twhy, tdevs>>
+              /\ UNCHANGED <<cmvars, hist, fam, tid, tok, twhy, tdevs>>
 EnumNext == EnumExtend \/ EnumFinish
 
 \* ---------------- Trace -------------------------------------------------------------------------
-\* one line per history: [tid, nc, ev: <<[c, k, x, o, r, pr: <<projection of ctx 1, ...>>]>>]
+\* one line per history: [tid, nc, tj, ev: <<[c, k, x, o, r, pr: <<projection of ctx 1, ...>>]>>]
+\* (tj >= 1: the history worked on an inventory target; the model does not care which one)
 Traces == ndJsonDeserialize(IOEnv.OBS_FILE)
 PtrIx == 7 + NT
 ExtraIx == 8 + NT
@@ -81,12 +126,14 @@ Clause(ev, pre, pred, nc) ==
 TraceInit == /\ tid \in 1..Len(Traces)
              /\ ctx = [c \in 1..Traces[tid].nc |-> NewCtx(LimitsOf(c))]
              /\ twin = <<>> /\ pc = Idle /\ evn = 0 /\ actor = 0 /\ last = "none" /\ hist = <<>>
+             /\ fam = [tj |-> 0, late |-> 0]
              /\ tl = 1 /\ tok = TRUE /\ twhy = NoWhy /\ tdevs = {}
 TraceNext ==
   /\ tl <= Len(Traces[tid].ev)
   /\ LET tr == Traces[tid]
          ev == tr.ev[tl]
-         enabled == ev.k \in Kinds /\ ev.c \in 1..tr.nc /\ Guard(ev.k, ctx[ev.c])
+         enabled == /\ ev.k \in Kinds /\ ev.c \in 1..tr.nc /\ Guard(ev.k, ctx[ev.c])
+                    /\ (ev.k \in InvKinds => tr.tj >= 1)
      IN IF ~enabled
         THEN \* the model cannot take this event at all: the generator left the specification (machinery)
              /\ tok' = FALSE
@@ -106,14 +153,14 @@ TraceNext ==
                 /\ tdevs' = IF Deviation(ev, pred) # "" THEN tdevs \cup {Deviation(ev, pred)} ELSE tdevs
                 /\ evn' = evn + 1 /\ actor' = ev.c /\ last' = ev.o
   /\ tl' = tl + 1
-  /\ UNCHANGED <<twin, pc, hist, tid>>
+  /\ UNCHANGED <<twin, pc, hist, fam, tid>>
 \* CONSTRAINT: a fully consumed trace prints its verdict
 TraceEmit == tl <= Len(Traces[tid].ev)
              \/ PrintT(ToJson([tid |-> Traces[tid].tid, ok |-> tok, n |-> tl - 1, why |-> twhy,
                                 devs |-> IF tdevs = {} THEN "" ELSE CHOOSE d \in tdevs : TRUE]))
 \* invariants evaluated on every state of every observed execution
 TraceTypeOK ==
-  \A c \in DOMAIN ctx : /\ \A nm \in Names : ctx[c].globals[nm].k \in {"absent", "num", "fn"}
-                        /\ \A j \in 1..NT : ctx[c].touched[j] \in Nat
+  \A c \in DOMAIN ctx : /\ \A nm \in Names : ctx[c].globals[nm].k \in {"absent", "undef", "num", "fn"}
+                        /\ \A j \in 1..NT : ctx[c].touched[j] \in Nat /\ ctx[c].inv \in Nat
                         /\ ~ctx[c].ptr /\ ctx[c].depth = 0 /\ ctx[c].limits = LimitsOf(c)
 =============================================================================
